@@ -1664,3 +1664,38 @@ def fam_cost(rng, n, tier, mode="exact"):
 
 
 FAMILIES.update({"selfviews": fam_selfviews, "cost": fam_cost})
+
+def fam_scalar_edges(rng, n, tier, mode="float"):
+    """every scalar function at the edges of its range: magnitudes 1e-30 .. 1e30, forward value and
+    gradient, one or two elements per case (a non-finite result ends a case, so cases are tiny).  A
+    clamp, an epsilon or a cast that differs between the scalar types shows here first."""
+    cases = []
+    mags = [1e-30, 1e-20, 1e-12, 1e-10, 1e-8, 1e-7, 3e-7, 1e-6, 1e-4, 1e-2, 0.5, 1.0, 2.0, 10.0, 30.0, 80.0, 1e3, 1e6, 1e10, 1e20, 1e30]
+    ops = [("ln", "ln r a", True), ("exp", "exp r a", False), ("recip", "recip r a", False), ("sigmoid", "sigmoid r a", False),
+           ("relu", "relu r a", False), ("softmax", "softmax r a", False), ("neg", "neg r a", False)]
+    for e in (-1.5, -1.0, 0.5, 2.0, 3.0):
+        ops.append(("powf%g" % e, "powf r a %s" % sc(e, mode), True))
+    for (name, line, posonly) in ops:
+        for m in mags:
+            for sign in ((1,) if posonly else (1, -1)):
+                v = sign * m
+                w = sign * m * 1.5
+                L = ["new a 2 %s" % vals_s([v, w], mode), "tracked a", line, "backward r -", "grad a"]
+                cases.append(Case(L, ("edge", name, m, sign), [name, "edge"], mode))
+    # binary operations between very different magnitudes
+    for op in ("add", "sub", "mul", "div"):
+        for m1 in (1e-20, 1e-7, 1.0, 1e7, 1e20):
+            for m2 in (1e-20, 1e-7, 1.0, 1e7, 1e20):
+                L = ["new a 2 %s" % vals_s([m1, -m1], mode), "new b 2 %s" % vals_s([m2, 3 * m2], mode),
+                     "tracked a", "tracked b", "%s r a b" % op, "backward r -", "grad a", "grad b"]
+                cases.append(Case(L, ("edge2", op, m1, m2), [op, "edge"], mode))
+    # costs on probabilities close to 0 and 1
+    for p in (1e-30, 1e-10, 1e-7, 1e-3, 0.5, 1 - 1e-3, 1 - 1e-7):
+        L = ["new o 1,2 %s" % vals_s([p, 1 - p if p < 0.5 else 1e-3], mode), "new t 1,2 %s" % vals_s([1.0, 0.0], mode),
+             "tracked o", "cost e xent o t", "backward e -", "grad o",
+             "cost f mse o t", "backward f -", "grad o"]
+        cases.append(Case(L, ("edgecost", p), ["cost", "edge"], mode))
+    return cases
+
+
+FAMILIES.update({"scalar_edges": fam_scalar_edges})
